@@ -34,7 +34,7 @@ func (p *Prog) ourField(f *types.Var) bool {
 	if f.Pkg() == nil {
 		return false
 	}
-	if !strings.HasPrefix(f.Pkg().Path(), modPath) {
+	if !strings.HasPrefix(f.Pkg().Path(), modPath) || f.Pkg().Path() == pkgPaths["rafttest"] {
 		return false
 	}
 	// protobuf runtime internals of generated messages
@@ -183,13 +183,32 @@ func (p *Prog) computeEffects() {
 		ours := pk != nil && strings.HasPrefix(pk.Path(), modPath)
 		for _, b := range fn.Blocks {
 			for _, in := range b.Instrs {
-				if ours {
+				if ours && pk.Path() == pkgPaths["raftpb"] {
+					// generated code: only stores to message fields matter
+					if s, ok := in.(*ssa.Store); ok {
+						if fa, ok := s.Addr.(*ssa.FieldAddr); ok {
+							if st := derefStruct(fa.X.Type()); st != nil && p.ourField(st.Field(fa.Field)) {
+								if _, fresh := rootOfAddr(fa).(*ssa.Alloc); !fresh {
+									e.Writes[st.Field(fa.Field)] = true
+								}
+							}
+						}
+					}
+				} else if ours {
 					locs, root := p.instrWrites(in)
 					for _, l := range locs {
 						if al, ok := root.(*ssa.Alloc); ok {
 							// stores into the function's own fresh objects are not
 							// visible effects, unless the cell is a captured variable
 							if _, isField := l.(*types.Var); isField || !allocCaptured(al) {
+								continue
+							}
+						}
+						switch root.(type) {
+						case *ssa.MakeSlice, *ssa.MakeMap:
+							continue
+						case *ssa.UnOp:
+							if isFreshValue(root, 0) {
 								continue
 							}
 						}
@@ -310,7 +329,7 @@ func (p *Prog) IsPure(fn *ssa.Function) bool {
 	}
 	// a function that mutates raft state proper is not an accessor, even if its
 	// own result does not depend on it
-	return len(e.Writes) <= 4 && !p.writesProtocolState(e)
+	return !p.writesProtocolState(e)
 }
 
 // writesProtocolState: any write outside the MemoryStorage statistics struct.
@@ -467,6 +486,16 @@ func (p *Prog) Killed(between []ssa.Instruction, locs map[Loc]bool, symRoots map
 					continue
 				}
 			}
+			switch root.(type) {
+			case *ssa.MakeSlice, *ssa.MakeMap:
+				if !symRoots[root] {
+					continue
+				}
+			case *ssa.UnOp:
+				if isFreshValue(root, 0) {
+					continue
+				}
+			}
 			for _, l := range wl {
 				if locs[l] {
 					return in
@@ -542,4 +571,59 @@ func (p *Prog) relevantReads(fn *ssa.Function) []Loc {
 		}
 	}
 	return out
+}
+
+
+// isFreshValue: the value is an object created by this function (so writes
+// through it cannot be observed through any pre-existing path): allocations,
+// make, proto.Clone results, and elements loaded back from a fresh container
+// into which only fresh values were stored.
+func isFreshValue(v ssa.Value, depth int) bool {
+	if depth > 4 {
+		return false
+	}
+	switch x := v.(type) {
+	case *ssa.Alloc:
+		return !allocCaptured(x)
+	case *ssa.MakeSlice, *ssa.MakeMap:
+		return true
+	case *ssa.Call:
+		if callee := x.Common().StaticCallee(); callee != nil && callee.Pkg != nil &&
+			callee.Pkg.Pkg.Path() == "google.golang.org/protobuf/proto" && callee.Name() == "Clone" {
+			return true
+		}
+		return false
+	case *ssa.TypeAssert:
+		return isFreshValue(x.X, depth+1)
+	case *ssa.ChangeType:
+		return isFreshValue(x.X, depth+1)
+	case *ssa.UnOp:
+		if x.Op != token.MUL {
+			return false
+		}
+		ia, ok := x.X.(*ssa.IndexAddr)
+		if !ok {
+			return false
+		}
+		cont := ia.X
+		if _, ok := cont.(*ssa.MakeSlice); !ok {
+			return false
+		}
+		// every element store into the container stores a fresh value
+		for _, ref := range *cont.Referrers() {
+			ia2, ok := ref.(*ssa.IndexAddr)
+			if !ok {
+				continue
+			}
+			for _, r2 := range *ia2.Referrers() {
+				if st, ok := r2.(*ssa.Store); ok && st.Addr == ia2 {
+					if !isFreshValue(st.Val, depth+1) {
+						return false
+					}
+				}
+			}
+		}
+		return true
+	}
+	return false
 }
